@@ -436,7 +436,7 @@ func genLinear(rng *rand.Rand, o genOpts, engine string) *scn {
 					par = base + j - 1
 				}
 				s.Parents = append(s.Parents, par)
-				s.Bits = append(s.Bits, defaultBits)
+				s.Bits = append(s.Bits, bitsSmall[0]) // work 1 each: m blocks < the k-f blocks (work >= 1 each) they compete with
 				s.Init = append(s.Init, base+j)
 			}
 		}
